@@ -20,9 +20,10 @@ EmitCase == Emit =>
           sources |-> IF E!Succeeds(pat, Form) THEN E!Sources(pat, Form) ELSE [n \in {} |-> ""],
           required_after |-> IF E!Succeeds(pat, Form) THEN SetToSeq(E!RequiredAfter(pat, Form)) ELSE <<>>])>>, Out)
   ELSE CSVWrite("%1$s", <<ToJson([kind |-> kind, cols |-> cols, lhs |-> SetToSeq(lhs), dot |-> E!DotExpand(cols, lhs)])>>, Out)
-Perms4 == {p \in [1..4 -> {"c1", "c2", "c3", "y"}] : \A i, j \in 1..4 : i # j => p[i] # p[j]}
+\* "c 3" needs quoting in a formula
+Perms4 == {p \in [1..4 -> {"c1", "c2", "c 3", "y"}] : \A i, j \in 1..4 : i # j => p[i] # p[j]}
 Init == \/ /\ kind = "resolve" /\ pat \in [data : SUBSET E!Names, context : SUBSET E!Names] /\ fid \in DOMAIN E!Formulas /\ cols = <<>> /\ lhs = {}
-        \/ /\ kind = "dot" /\ pat = [data |-> {}, context |-> {}] /\ fid = 1 /\ cols \in Perms4 /\ lhs \in {{"y"}, {"y", "c2"}, {}}
+        \/ /\ kind = "dot" /\ pat = [data |-> {}, context |-> {}] /\ fid = 1 /\ cols \in Perms4 /\ lhs \in {{"y"}, {"y", "c2"}, {}, {"c 3"}, {"y", "c 3"}}
 Next == UNCHANGED vars
 Spec == Init /\ [][Next]_vars
 =============================================================================
